@@ -143,6 +143,11 @@ def build(run, prop=ID):
     sect(run, build_wiring_unbounded, run, prop, E)
     sect(run, build_trx_list, run, prop, E)
     sect(run, build_pwr_lemma, run, prop)
+    # "the generator runs iff links are attached" is judged through CLCKGen.start()/stop(): their contract (C09) is discharged here as well
+    from props import C09 as _C09
+    _C09.install_time_models()
+    E3 = new_engine()
+    sect(run, _C09.build_start_stop, run, prop, E3)
     note_engine(run, E)
     run.assume("CLCKGen.start()/stop() start/join the worker thread (threading assumed); the worker stays alive until stopped")
     run.assume("children of a transceiver are pairwise distinct and distinct from it (TRXList.add_trx); clock links are duplicate-free (invariant, re-proved)")
@@ -643,6 +648,9 @@ def build_pwr_lemma(run, prop):
 # ------------------------------------------------------------------ witness / replay
 
 def witness(o, model):
+    if isinstance(o.tag, dict) and o.tag.get("what") in ("start", "stop"):
+        from props import C09 as _C09
+        return _C09.witness(o, model)
     t = dict(o.tag or {}) if isinstance(o.tag, dict) else {}
     for nme in ("t.child_idx", "children.len", "base_port", "child_idx", "links.len"):
         t[nme] = mval(model, z3.Int(nme))
@@ -655,6 +663,9 @@ def replay(payload):
     from contracts.py.native import native_trx, patch_sockets
     f = payload["inputs"]
     what = f.get("what")
+    if what in ("start", "stop"):
+        from props import C09 as _C09
+        return _C09.replay(payload)
     cg = toolkit("clck_gen")
     if what == "handler":
         patch_sockets()
